@@ -145,6 +145,10 @@ func (l *Gpos4_1) apply(ctx *Context, a, b int) int {
 	if p < 0 {
 		return -1
 	}
+	if int(markRecord.Class) >= len(l.BaseArray[baseIdx]) {
+		// The mark class is not covered by the base array.
+		return -1
+	}
 	baseRecord := l.BaseArray[baseIdx][markRecord.Class]
 	if baseRecord.IsEmpty() {
 		// TODO(voss): verify that this is what others do, too.
